@@ -916,3 +916,9 @@ def run(ctx):
         c19.rule_stale_field(ctx, rule="C01/one-flush-owner", only=("memory_blocks",))
     except ImportError:
         pass
+    # "the produced image" is also what lands in the destination: directory slots are written at start + slot rva and the append position
+    # is restored to what it was, whatever the destination already holds (same rule instances as C09/seek-targets, C09/save-restore)
+    from rules import c09 as _c09
+    _c09.rule_seek_targets(ctx, R="C01/destination/seek-targets")
+    _c09.rule_save_restore(ctx, R="C01/destination/save-restore")
+
